@@ -431,6 +431,37 @@ fn near_miss() -> Vec<Vec<GRule>> {
     for e in [RepX(b(s("x")), 0), RepMax(b(s("x")), 0), RepMM(b(s("x")), 0, 0), RepMM(b(s("x")), 2, 0), RepMM(b(s("x")), 2, 1), RepMM(b(id("a")), 2, 1), RepMin(b(s("x")), 0)] {
         out.push(vec![nrule("a", e.clone())]); out.push(vec![nrule("a", seq(e.clone(), Rep(b(s("")))))]); out.push(vec![nrule("a", seq(e.clone(), s("y"))), nrule("b", RepX(b(s("y")), 0))]);
     }
+    // J. the SAME non-progressing-but-fallible rule referenced two or three times inside one repetition / WHITESPACE / COMMENT body,
+    //    directly and through a second silent rule (a trace that is not popped would count the later references as progressing);
+    //    the same for non-failing rules and for a nullable prefix in front of a left-recursive reference
+    let np_bodies: Vec<GE> = vec![Pos(b(s("x"))), Neg(b(s("y"))), id("SOI"), id("EOI"), seq(s(""), Pos(b(s("x")))), seq(s(""), s("")), Opt(b(s("y")))];
+    for xb in &np_bodies {
+        let x = || rule("x", Ty::Silent, xb.clone());
+        let y2 = || rule("y2", Ty::Silent, id("x"));
+        let multi: Vec<(GE, bool)> = vec![
+            (seq(id("x"), id("x")), false), (seq(seq(id("x"), id("x")), id("x")), false), (seq(id("x"), seq(id("x"), id("x"))), false),
+            (seq(id("x"), id("y2")), true), (seq(id("y2"), id("x")), true), (seq(id("y2"), id("y2")), true), (seq(seq(id("y2"), id("x")), id("y2")), true),
+            (seq(Opt(b(s("y"))), seq(id("x"), id("x"))), false), (seq(id("x"), Push(b(id("x")))), false), (seq(id("x"), RepX(b(id("x")), 2)), false),
+            (cho(seq(id("x"), id("x")), seq(id("x"), id("x"))), false),
+        ];
+        for (body, needs_y2) in &multi {
+            let with = |mut g: Vec<GRule>| { g.push(x()); if *needs_y2 { g.push(y2()); } g };
+            for rep in [Rep(b(body.clone())), Rep1(b(body.clone())), RepMin(b(body.clone()), 1), RepMin(b(body.clone()), 0)] {
+                out.push(with(vec![nrule("a", seq(rep.clone(), s("x")))]));
+                out.push(with(vec![rule("a", Ty::Atomic, seq(s("x"), rep.clone()))]));
+            }
+            for sp in ["WHITESPACE", "COMMENT"] {
+                out.push(with(vec![nrule("r", seq(s("x"), s("x"))), rule(sp, Ty::Silent, body.clone())]));
+                out.push(with(vec![nrule("r", seq(s("x"), s("y"))), rule(sp, Ty::Normal, body.clone())]));
+                out.push(with(vec![nrule("r", Rep(b(s("x")))), rule(sp, Ty::Silent, body.clone())]));
+            }
+            // non-final alternative and a (nullable) prefix of a left-recursive reference
+            out.push(with(vec![nrule("a", cho(body.clone(), s("x")))]));
+            out.push(with(vec![nrule("a", seq(body.clone(), id("a")))]));
+            out.push(with(vec![nrule("a", seq(seq(body.clone(), id("a")), s("x")))]));
+            out.push(with(vec![nrule("a", seq(body.clone(), id("c"))), nrule("c", seq(body.clone(), id("a")))]));
+        }
+    }
     let mut seen = BTreeSet::new();
     out.retain(|g| seen.insert(sexp_grammar(g)));
     out
